@@ -58,6 +58,30 @@ Proof.
   le_case (Hrec e l). destruct (rec2 e l); try apply le_res_refl.
   destruct (Nat.eqb loc0 l); [apply le_res_refl|apply IH].
 Qed.
+Lemma peg_each_round_le es : forall cands l reqd opt mo nf k1 k2,
+  (forall l' r o m nf', le_res (k1 l' r o m nf') (k2 l' r o m nf')) ->
+  le_res (peg_each_round rec1 es cands l reqd opt mo nf k1) (peg_each_round rec2 es cands l reqd opt mo nf k2).
+Proof.
+  induction cands as [|en rest IH]; intros l reqd opt mo nf k1 k2 Hk; cbn [peg_each_round]; [apply Hk|].
+  le_case (Hrec (ee_e en) l). destruct (rec2 (ee_e en) l); try apply le_res_refl.
+  - destruct (mem_cls (ee_cls en) reqd); [apply IH; exact Hk|].
+    destruct (mem_cls (ee_cls en) opt); apply IH; exact Hk.
+  - apply IH; exact Hk.
+Qed.
+
+Lemma peg_each_loop_le es multis : forall fuel l reqd opt mo k1 k2,
+  (forall r o m, le_res (k1 r o m) (k2 r o m)) ->
+  le_res (peg_each_loop rec1 es fuel l reqd opt multis mo k1) (peg_each_loop rec2 es fuel l reqd opt multis mo k2).
+Proof.
+  induction fuel as [|f IH]; intros l reqd opt mo k1 k2 Hk; cbn [peg_each_loop]; [apply le_res_refl|].
+  apply peg_each_round_le. intros l' r o m nf'.
+  destruct (Nat.eqb nf' _); [apply Hk|]. destruct (_ && _); [apply le_res_refl|]. apply IH; exact Hk.
+Qed.
+
+Lemma peg_each_le s es info l : le_res (peg_each s rec1 es info l) (peg_each s rec2 es info l).
+Proof.
+  unfold peg_each. apply peg_each_loop_le. intros r o m. destruct r; [|apply le_res_refl]. apply peg_seq_le.
+Qed.
 End Mono.
 
 (* one unfolding of `peg` is monotone in the recursive calls; Forward is the only case that reads the environment *)
@@ -75,7 +99,7 @@ Proof.
     + apply peg_seq_le, H.
     + apply peg_first_le, H.
     + apply peg_longest_le, H.
-    + apply le_res_refl.
+    + apply peg_each_le, H.
   - destruct k as [|aspy| | | | | | | | | | | ]; try apply le_res_refl;
       try (destruct aspy; [apply le_res_refl|]); le_case (H c loc); apply le_res_refl.
   - destruct ne as [n|].
